@@ -40,9 +40,66 @@ type c20Plan struct {
 	SrcIdx  int
 	KeySeed uint32
 	Batch   int
+	NearKey bool // the content id shares its first ten bits with the local id: table nodes in the far buckets then lie at *different* log-distances from the content
+}
+
+// genC20Near: plans in which "the 32 nearest" and "the 4 closest covered" are decided by log-distance and not by
+// ties. For a content id close to the local id, a table node in bucket d >= 247 lies at log-distance d from the
+// content as well. "window": two full buckets and 1..3 nodes in the next one (the 33rd-nearest and beyond), few
+// covered nodes, the source mostly among the nearest 32. "ladder": 1..3 nodes in each of many buckets, most of
+// them covered, so that more than twelve covered candidates exist and the four closest are determined.
+func genC20Near(t *rapid.T) c20Plan {
+	mode := rapid.SampledFrom([]string{"window", "ladder"}).Draw(t, "nearMode")
+	var table []tableNodeSpec
+	var ops []radiusOp
+	node := func(d int) tableNodeSpec {
+		return tableNodeSpec{Dist: d, Fill: rapid.Uint32().Draw(t, "fill"), IPClass: "public", Live: true}
+	}
+	cover := func(idx int, class string) radiusOp {
+		return radiusOp{NodeIdx: idx, Via: "pong", Type: "clientinfo", RClass: class, RSeed: rapid.Uint32().Draw(t, "rseed")}
+	}
+	src, srcIdx := "none", 0
+	if mode == "window" {
+		a := rapid.IntRange(247, 254).Draw(t, "a")
+		for i := 0; i < 16; i++ {
+			table = append(table, node(a))
+		}
+		for i := 0; i < 16; i++ {
+			table = append(table, node(a+1))
+		}
+		outer := rapid.IntRange(1, 3).Draw(t, "outer")
+		for i := 0; i < outer; i++ {
+			table = append(table, node(a+2))
+			ops = append(ops, cover(32+i, "cover"))
+		}
+		for i, n := 0, rapid.IntRange(0, 6).Draw(t, "innerCovered"); i < n; i++ {
+			ops = append(ops, cover(rapid.IntRange(0, 31).Draw(t, "inner"), rapid.SampledFrom([]string{"cover", "cover", "max", "nocover"}).Draw(t, "rc")))
+		}
+		if rapid.IntRange(0, 4).Draw(t, "hasSrc") > 0 {
+			src, srcIdx = "intable", rapid.IntRange(0, 34).Draw(t, "srcidx")
+		}
+	} else {
+		for d := 247; d <= 256; d++ {
+			for i, n := 0, rapid.IntRange(0, 3).Draw(t, "perBucket"); i < n; i++ {
+				table = append(table, node(d))
+			}
+		}
+		for i := range table {
+			if rapid.IntRange(0, 9).Draw(t, "cov") < 8 {
+				ops = append(ops, cover(i, rapid.SampledFrom([]string{"cover", "cover", "cover", "max", "nocover"}).Draw(t, "rc")))
+			}
+		}
+		src = rapid.SampledFrom([]string{"none", "covered", "intable"}).Draw(t, "src")
+		srcIdx = rapid.IntRange(0, 300).Draw(t, "srcidx")
+	}
+	return c20Plan{Network: rapid.SampledFrom([]string{"history", "state", "beacon"}).Draw(t, "net"), Table: table, Ops: ops, Source: src, SrcIdx: srcIdx,
+		KeySeed: rapid.Uint32().Draw(t, "key"), Batch: rapid.SampledFrom([]int{1, 2}).Draw(t, "batch"), NearKey: true}
 }
 
 func genC20(t *rapid.T) c20Plan {
+	if rapid.IntRange(0, 9).Draw(t, "near") < 4 {
+		return genC20Near(t)
+	}
 	table := genTableNodes(t, rapid.SampledFrom([]int{3, 12, 50, 272}).Draw(t, "maxN"))
 	nops := 0
 	if len(table) > 0 {
@@ -172,6 +229,20 @@ func runC20(p c20Plan, c *stats.Case) error {
 	for i := range keys {
 		keys[i] = []byte{0x00, byte(p.KeySeed), byte(p.KeySeed >> 8), byte(p.KeySeed >> 16), byte(p.KeySeed >> 24), byte(i)}
 		contents[i] = fillBytes(10+i, byte(i))
+	}
+	if p.NearKey {
+		// search a key whose content id lies within log-distance 246 of the local id (about a thousand hashes)
+		found := false
+		for ctr := 0; ctr < 1<<20 && !found; ctr++ {
+			k := append(append([]byte{}, keys[0]...), byte(ctr), byte(ctr>>8), byte(ctr>>16))
+			if enode.LogDist(self, enode.ID(l.P.ToContentId(k))) <= 246 {
+				keys[0], found = k, true
+			}
+		}
+		if !found {
+			return fmt.Errorf("harness: no content key near the local id found")
+		}
+		c.Class("content-id-near-local-id")
 	}
 	contentID := l.P.ToContentId(keys[0])
 
@@ -464,6 +535,17 @@ func runC20(p c20Plan, c *stats.Case) error {
 	}
 	if len(possible) > 8 {
 		c.NT(">8-covered-candidates")
+	}
+	if len(possible) > 12 && p.NearKey {
+		c.NT(">12-covered-candidates-at-distinct-log-distances")
+	}
+	if p.NearKey {
+		for _, x := range all {
+			if x.cov && lower(x.ld) >= 32 && (src == nil || x.id != *src) {
+				c.NT("covered-node-just-outside-the-32-nearest")
+				break
+			}
+		}
 	}
 	if src != nil && (p.Source == "intable" || p.Source == "covered") {
 		for _, x := range all {
